@@ -71,6 +71,8 @@ def extract(cfg, repo=None, target_tag=""):
             "MQFACTS_NONCE": nonce,
             "MQFACTS_CFG": cfg,
             "MQFACTS_CRATE": "minimq",
+            # a driver failure (e.g. disk full) must not leave a rustc-ice-*.txt dump in the analysed tree
+            "RUSTC_ICE": "0",
         })
         env.pop("RUSTC_WRAPPER", None)
         cmd = ["cargo", "+nightly", "check", "--offline", "--lib", "-j", "16"] + CONFIGS[cfg]
